@@ -70,19 +70,30 @@ def run (α : Type) [Scalar α] [Codec α] (op : String) (c : Ctx) : Option (Rd 
       let census := (List.range 13).map fun k => Int.ofNat (facesOfSize e k)
       pure s!"{Out.bools bs} i{numV e} i{numE2 e} i{numF e} i{vol6 e} {Out.ints census}"
   | "c18.table" => some do
-      -- in: which (0 platonic, 1 archimedean, 2 catalan, 3 johnson, 4 plain), name, short, verts faces
-      -- out: the per-table obligation and its textbook part
+      -- in: which (0 platonic, 1 archimedean, 2 catalan, 3 johnson, 4 prism/antiprism, 5 pyramid/dipyramid,
+      --     6 repository, other: plain), name, short, source, ref, verts faces
+      -- out: the per-table obligation (for the repository without the cross-reference, which needs the other
+      --      tables: `c18.same`), its textbook part, and (johnson) the name part
       let which ← Rd.nat c
       let name ← rdStr c
       let short ← rdStr c
+      let source ← rdStr c
+      let ref ← rdStr c
       let e0 ← rdEntry c
-      let e := { e0 with name := name, short := short }
-      let rows := match which with
-        | 0 => Textbook.platonic | 1 => Textbook.archimedean | 2 => Textbook.catalan | _ => []
+      let e := { e0 with name := name, short := short, source := source, ref := ref }
       let ok := match which with
-        | 0 => platonicOk e | 1 => archimedeanOk e | 2 => catalanOk e | 3 => johnsonOk e | _ => plainOk e
-      let tb := if which = 3 then johnsonCountsOk e else textbookOk rows e
-      pure s!"{Out.bool ok} {Out.bool tb}"
+        | 0 => platonicOk e | 1 => archimedeanOk e | 2 => catalanOk e | 3 => johnsonOk e
+        | 4 => prismAntiprismOk e | 5 => pyramidDipyramidOk e
+        | 6 => polyhedronOk e && repoTextbookOk e
+        | _ => plainOk e
+      let tb := match which with
+        | 0 => textbookOk Textbook.platonic e | 1 => textbookOk Textbook.archimedean e
+        | 2 => textbookOk Textbook.catalan e | 3 => johnsonCountsOk e
+        | 4 => textbookOk Textbook.prismAntiprism e | 5 => textbookOk Textbook.pyramidDipyramid e
+        | 6 => repoTextbookOk e
+        | _ => true
+      let nm := if which = 3 then johnsonNameOk e else true
+      pure s!"{Out.bool ok} {Out.bool tb} {Out.bool nm}"
   | "c18.same" => some do
       -- in: verts verts ; out: sameVerts
       let a ← Rd.list c (rdP3 c)
@@ -90,11 +101,36 @@ def run (α : Type) [Scalar α] [Codec α] (op : String) (c : Ctx) : Option (Rd 
       pure (Out.bool (sameVerts a b))
   | "c18.textbook" => some do
       -- in: which ; out: the hand-entered rows of Spec/Textbook.lean
+      -- (0 platonic, 1 archimedean, 2 catalan, 3 johnson by number, 4 prism/antiprism, 5 pyramid/dipyramid,
+      --  6 the other solids of the repository, 7 johnson by name)
       let which ← Rd.nat c
       let rows := match which with
         | 0 => Textbook.platonic | 1 => Textbook.archimedean | 2 => Textbook.catalan
-        | _ => Textbook.johnson
+        | 3 => Textbook.johnson | 4 => Textbook.prismAntiprism | 5 => Textbook.pyramidDipyramid
+        | 6 => Textbook.otherSolids | _ => Textbook.johnsonByName
       pure (" ".intercalate (s!"i{rows.length}" :: rows.map outSolid))
+  | "c18.session" => some do
+      -- in: families (records each), steps (0 get fam name | 1 iter fam) ;
+      -- out: per step the number of answers and the answers (class, payload = 100000·family + record position)
+      let nf ← Rd.nat c
+      let mut fams : Array (Family Nat) := #[]
+      for k in [0:nf] do
+        let f ← rdFamily c
+        fams := fams.push ⟨f.data.map fun kv => (kv.1, { kv.2 with verts := 100000 * k + kv.2.verts })⟩
+      let ns ← Rd.nat c
+      let mut steps : Array Step := #[]
+      for _ in [0:ns] do
+        let kind ← Rd.nat c
+        let fam ← Rd.nat c
+        if kind = 0 then
+          let name ← rdStr c
+          steps := steps.push (.get fam name)
+        else
+          steps := steps.push (.iter fam)
+      let w : World Nat := ⟨fams.toList⟩
+      let (_, answers) := w.run steps.toList
+      pure (" ".intercalate (answers.map fun a =>
+        " ".intercalate (s!"i{a.length}" :: a.map outShape)))
   | "c18.family" => some do
       -- in: records, query ; out: names-iteration (class, payload)*, then get_shape(query)
       let f ← rdFamily c
